@@ -183,17 +183,23 @@ class OutcomeSpec(Spec):
     name = 'outcomes'
     title = 'process globals after every outcome of DocTest.run'
 
-    def __init__(self):
+    def __init__(self, prefix_pairs=False):
         self.max_len = len(DIMS)
         self.max_cost = 99
-        self.rule = ('full product of %s; non-trivial = the run does not simply pass (failure, propagating exception, '
+        self.prefix_pairs = prefix_pairs
+        if prefix_pairs:
+            self.name = 'outcomes-prefix-pairs'
+        self.rule = ('full product of %s%s; non-trivial = the run does not simply pass (failure, propagating exception, '
                      'skip, early exit) or the body touches process state' % (
-                         ', '.join('%s(%d)' % (n, len(v)) for n, v in DIMS)))
+                         ', '.join('%s(%d)' % (n, len(v)) for n, v in DIMS),
+                         ' with every ordered pair of two different body prefixes' if prefix_pairs else ''))
 
     def init(self):
         return 0
 
     def enabled(self, S, hist):
+        if self.prefix_pairs and len(hist) == 0:
+            return [(a, b) for a in PREFIX for b in PREFIX if a != b and 'none' not in (a, b)]
         return DIMS[len(hist)][1]
 
     def step(self, S, ev):
@@ -210,7 +216,8 @@ class OutcomeSpec(Spec):
             modsrc = IMPORT_SRC[term]
         else:
             tl = TERM[term]
-        lines = PREFIX[prefix] + tl + (['>>> y = 2'] if pos == 'middle' else [])
+        plines = (PREFIX[prefix[0]] + PREFIX[prefix[1]]) if isinstance(prefix, (tuple, list)) else PREFIX[prefix]
+        lines = plines + tl + (['>>> y = 2'] if pos == 'middle' else [])
         how, bad, t = run_doctest_case(lines, on_error, verbose, modsrc, host=host,
                                        path_edit={'import_pathins_then_raises': ('front', '/nonexistent_zz'),
                                                   'import_pathapp_then_ImportError': ('end', '/nonexistent_yy')}.get(term))
@@ -367,4 +374,6 @@ class ImportSpec(Spec):
 
 
 def specs(tier):
+    if tier == 'thorough':
+        return [OutcomeSpec(), OutcomeSpec(prefix_pairs=True), AfterPoisonSpec(), ImportSpec()]
     return [OutcomeSpec(), AfterPoisonSpec(), ImportSpec()]
